@@ -249,14 +249,17 @@ func (o *OCIDir) writeIndex(r ref.Ref, i v1.Index, locked bool) error {
 	if err != nil {
 		return fmt.Errorf("cannot marshal layout: %w", err)
 	}
-	lfh, err := os.Create(path.Join(r.Path, imageLayoutFile))
-	if err != nil {
-		return fmt.Errorf("cannot create %s: %w", imageLayoutFile, err)
-	}
-	defer lfh.Close()
-	_, err = lfh.Write(lb)
-	if err != nil {
-		return fmt.Errorf("cannot write %s: %w", imageLayoutFile, err)
+	// only write the oci-layout file when it is missing or invalid, truncating a valid one leaves the layout unreadable if the process dies before the write
+	if errValid := o.valid(r.Path, true); errValid != nil {
+		lfh, err := os.Create(path.Join(r.Path, imageLayoutFile))
+		if err != nil {
+			return fmt.Errorf("cannot create %s: %w", imageLayoutFile, err)
+		}
+		defer lfh.Close()
+		_, err = lfh.Write(lb)
+		if err != nil {
+			return fmt.Errorf("cannot write %s: %w", imageLayoutFile, err)
+		}
 	}
 	// create/replace index.json file
 	tmpFile, err := os.CreateTemp(r.Path, "index.json.*.tmp")
